@@ -157,9 +157,20 @@ func init() {
 					w.monitorQoS2Out()
 					w.monitorAllDelivered("C03")
 					w.monitorAllDelivered("C02")
+					w.monitorOrder() // C05: PUBRELs of two ages, then the PUBLISHes, in order
 				}
 			},
 		}
+	})
+	// exactly-once traffic next to at-least-once traffic with a different
+	// count, no stops: a reconnect that fails while the other level is being
+	// retransmitted must leave this level's sequence as it was
+	register("qos2mix", func() *Scenario {
+		s := scenarios["qos2out"]()
+		s.Actors = append(s.Actors, ActorSpec{Name: "B", Ops: []Op{{Kind: "pub1", Topic: "r/1", Msg: []byte("R1-eeee")}}})
+		s.Gens = nil
+		s.Faults = Faults{Cut: true, NoResponse: true, WriteCuts: cutsEdge, WriteErr: true, Store: map[string]bool{"load": true}}
+		return s
 	})
 	register("qos2out", func() *Scenario {
 		cfg := baseConfig()
